@@ -7,7 +7,7 @@
    at ANY times with uint32/uint64 weights).  Only statements here; proofs in
    proofs/SemaphoreProofs.v. *)
 From Coq Require Import NArith ZArith List Bool.
-From LV Require Import model.Semaphore spec.SemaphoreSpec model.SemaphoreStream proofs.SemaphoreProofs proofs.SemaphoreAccept.
+From LV Require Import model.Semaphore spec.SemaphoreSpec model.SemaphoreStream proofs.SemaphoreProofs proofs.SemaphoreAccept proofs.SemaphoreSame.
 Import ListNotations.
 
 (* The held amount never exceeds the capacity the semaphore was created with; the capacity is the
@@ -164,6 +164,16 @@ Theorem C30_model_meets_spec : forall c prefer t0 sc,
   m_wf c -> script_wf t0 sc -> accept c (simulate_stream c prefer sc) = true.
 Proof. exact model_meets_spec. Qed.
 
+(* The three presentations of the replay scheduler are one: [simulate_stream] (above) goes through the same
+   states and event traces as [sim_script] - the scheduler of C30_scheduler_is_run, C30_scheduler_quiescent
+   and C30_scheduler_all_return, whose output ([simulate]) the driver renders and compares with the Go
+   semaphore - and its records, read as (instant, id, result), are exactly the returns in [sim_script]'s
+   observation buffer (newest first). *)
+Theorem C30_stream_is_sim_script : forall c prefer sc,
+  let '(st, tr, ob) := sim_script true prefer (init c, [], []) sc in
+  rets_t ob = flat_map rec_rets_t (rev (simulate_stream c prefer sc)).
+Proof. exact stream_is_sim_script. Qed.
+
 (* non-vacuity: the witness script of the pinned tree's defect is well-formed (and the acceptor rejects
    what the pinned tree does on it: sem_old_timeout_refuted) *)
 Example C30_model_meets_spec_nonvacuous : script_wf 0%Z wit_timeout /\ m_wf (mkM 1 100).
@@ -203,3 +213,4 @@ Print Assumptions C30_scheduler_all_return.
 Print Assumptions C30_instant_clauses.
 Print Assumptions C30_reachable_inv.
 Print Assumptions C30_model_meets_spec.
+Print Assumptions C30_stream_is_sim_script.
